@@ -14,9 +14,7 @@ use crate::value::{ListSeparator, Numeric, Operator, Rgba};
 use nom::Parser as _;
 use nom::branch::alt;
 use nom::bytes::complete::{tag, tag_no_case};
-use nom::character::complete::{
-    alphanumeric1, char, digit1, multispace0, multispace1, one_of,
-};
+use nom::character::complete::{alphanumeric1, char, digit1, one_of};
 use nom::combinator::{
     cut, into, map, map_opt, map_res, not, opt, peek, recognize, value,
     verify,
@@ -128,9 +126,9 @@ fn single_expression(input: Span) -> PResult<Value> {
     fold_many0(
         (
             delimited(
-                multispace0,
+                ignore_comments,
                 value(Operator::Or, tag("or")),
-                multispace1,
+                verify(ignore_comments, |space| *space),
             ),
             and_expression,
             position,
@@ -149,9 +147,9 @@ fn and_expression(input: Span) -> PResult<Value> {
     fold_many0(
         (
             delimited(
-                multispace0,
+                ignore_comments,
                 value(Operator::And, tag("and")),
-                multispace1,
+                verify(ignore_comments, |space| *space),
             ),
             logic_expression,
             position,
@@ -169,7 +167,7 @@ fn logic_expression(input: Span) -> PResult<Value> {
     let (input1, a) = relational_expression(input)?;
     fold_many0(
         (
-            delimited(multispace0, equality_operator, multispace0),
+            delimited(ignore_comments, equality_operator, ignore_comments),
             relational_expression,
             position,
         ),
@@ -186,7 +184,7 @@ fn relational_expression(input: Span) -> PResult<Value> {
     let (input1, a) = sum_expression(input)?;
     fold_many0(
         (
-            delimited(multispace0, relational_operator, multispace0),
+            delimited(ignore_comments, relational_operator, ignore_comments),
             sum_expression,
             position,
         ),
